@@ -17,7 +17,7 @@ BOUNDS = {"quick": "(native after concretisation) connection A of peer1 in {outb
 OUTSIDE = ["3+ connections", "real joins/timeouts of OS threads"]
 
 A_STATES = ["out_connecting", "in_pre_cer", "out_pre_cea", "ready", "waiting_dwa", "disconnecting"]
-B_KINDS = ["none", "second_of_peer1", "peer2_ready", "peer2_pre_cer"]
+B_KINDS = ["none", "second_of_peer1", "peer2_ready", "peer2_pre_cer", "peer2_cer_during_stop"]
 REACT = ["dpa_prompt", "dpa_late", "never", "close", "dwa_then_dpa", "dpa_dwa_same_read"]
 
 
@@ -87,9 +87,11 @@ def _scenario_body(sa_n, kb_n, react, W, force, newcomer, deadline, eager_io):
             h.ev_accept()
             h.ev_cer(B.PEER_HOSTS[1], [4])
             conns.append(h.newest())
-        elif kb_n == "peer2_pre_cer":
+        elif kb_n in ("peer2_pre_cer", "peer2_cer_during_stop"):
             h.ev_accept()
             conns.append(h.newest())
+            if kb_n == "peer2_cer_during_stop":
+                p2.idle_timeout = 1           # whatever stop() makes of a CER that arrives now: no watchdog may follow while stopping
         socks = [sock_of(c) for c in conns]
         for s in socks:
             if s is not None:
@@ -140,6 +142,8 @@ def _scenario_body(sa_n, kb_n, react, W, force, newcomer, deadline, eager_io):
                 if t <= tick[0] and not socks[i].closed:
                     socks[i].inq.append(B.dpa(B.PEER_HOSTS[0], m.header.hop_by_hop_identifier, m.header.end_to_end_identifier).as_bytes())
                     pending.remove(item)
+            if kb_n == "peer2_cer_during_stop" and tick[0] == 1 and not socks[1].closed:
+                socks[1].inq.append(B.cer(B.PEER_HOSTS[1], hbh=901, e2e=901).as_bytes())
             if newcomer and tick[0] == 1:
                 ns = VSock(WORLD)
                 new_sock[0] = ns
